@@ -43,6 +43,33 @@ fn digest_with_sum(n: usize, w: u32, sum: u64, rng: &mut Rng) -> Vec<u8> {
     q
 }
 
+// RFC 8554 Appendix B, written from the RFC text
+fn rfc_row(n: usize, w: u32) -> (u64, u64) {
+    let u = (8 * n as u64 + w as u64 - 1) / w as u64;
+    let x = ((1u64 << w) - 1) * u;
+    let bits = 64 - x.leading_zeros() as u64; // floor(lg x) + 1
+    let v = (bits + w as u64 - 1) / w as u64;
+    (u + v, 16 - v * w as u64)
+}
+
+// RFC 8554 section 3.1.3
+fn rfc_coef(s: &[u8], i: usize, w: usize) -> u64 {
+    let byte = s[i * w / 8] as u64;
+    ((1u64 << w) - 1) & (byte >> (8 - (w * (i % (8 / w)) + w)))
+}
+
+fn rfc_digits(n: usize, w: usize, q: &[u8]) -> Vec<u8> {
+    let (p, ls) = rfc_row(n, w as u32);
+    let mut sum: u64 = 0;
+    for i in 0..(n * 8 / w) {
+        sum += ((1u64 << w) - 1) - rfc_coef(q, i, w);
+    }
+    let c = ((sum << ls) & 0xffff) as u16;
+    let mut s = q.to_vec();
+    s.extend_from_slice(&c.to_be_bytes());
+    (0..p as usize).map(|i| rfc_coef(&s, i, w) as u8).collect()
+}
+
 pub fn run(seed: u64, thorough: bool) {
     let mut rng = Rng::new(seed ^ 0xC12);
     // (a) parameter table as the library reports it
@@ -51,6 +78,24 @@ pub fn run(seed: u64, thorough: bool) {
             let o = with_hash!(*h, H => catch_opt(|| hk::lmots_parameter::<H>(ty)));
             let o = o.map(|(t, w, p, ls, n)| vec![t as u64, w as u64, p as u64, ls as u64, n as u64]);
             Line::new("ots_param").str("hash", h).num("ty", ty as u64).out_nums("out", &o).emit();
+            if let Out::Ok(row) = &o {
+                let (p, ls) = rfc_row(row[4] as usize, row[1] as u32);
+                let ok = row[2] == p && row[3] == ls;
+                Line::new("oracle").str("name", "ots_row_rfc").raw("ok", if ok { "true" } else { "false" })
+                    .num("n", row[4]).num("w", row[1]).num("p", row[2]).num("ls", row[3])
+                    .num("rfc_p", p).num("rfc_ls", ls).str("hash", h).emit();
+                // domination witness: all-ones digest vs. the same digest with the last digit lowered
+                let n = row[4] as usize;
+                let q1 = vec![0xffu8; n];
+                let mut q2 = q1.clone();
+                q2[n - 1] = 0xfe;
+                let d1 = with_hash!(*h, H => hk::lmots_digits::<H>(&q1, ty)).unwrap();
+                let d2 = with_hash!(*h, H => hk::lmots_digits::<H>(&q2, ty)).unwrap();
+                let dominated = d2.iter().zip(d1.iter()).all(|(a, b)| a <= b);
+                Line::new("oracle").str("name", "no_domination_witness").raw("ok", if dominated { "false" } else { "true" })
+                    .num("n", n as u64).num("w", row[1]).num("ls", row[3]).str("hash", h)
+                    .hex("q1", &q1).hex("q2", &q2).hex("digits_q1", &d1).hex("digits_q2", &d2).emit();
+            }
         }
     }
     // (b) digit extraction: every digit index of 34-byte strings that cover every byte value
@@ -97,6 +142,14 @@ pub fn run(seed: u64, thorough: bool) {
             for q in &digests {
                 let o = with_hash!(*h, H => catch_opt(|| hk::lmots_digits::<H>(q, ty)));
                 Line::new("digits").str("hash", h).num("ty", ty as u64).hex("q", q).out_bytes("out", &o).emit();
+                if let Out::Ok(d) = &o {
+                    let want = rfc_digits(*n, w as usize, q);
+                    let (_, rls) = rfc_row(*n, w);
+                    let ls = with_hash!(*h, H => hk::lmots_parameter::<H>(ty)).map(|r| r.3 as u64).unwrap_or(99);
+                    Line::new("oracle").str("name", "digits_rfc").raw("ok", if *d == want { "true" } else { "false" })
+                        .num("n", *n as u64).num("w", w as u64).num("ls", ls).num("rfc_ls", rls).str("hash", h).hex("q", q)
+                        .hex("got", d).hex("want", &want).emit();
+                }
             }
         }
     }
